@@ -43,6 +43,8 @@ struct PeerParams
   int abortKind = 0;          // 0 none, 1 RST after abortAfter bytes, 2 close() after abortAfter bytes
   uint64_t abortAfter = 0;
   size_t reserve = 0;
+  int drainMode = 0;          // 0 bursts with a pause budget; 1 slow but steady (fixed chunk, short pause after each, for ever);
+                              // 2 bursty for ever (no pause budget); 3 fast (never pauses)
   double writePauseProb = 0.05; // fraction of reverse chunks followed by a short pause
   uint32_t maxWriteChunk = 20000, minWriteChunk = 0; // minWriteChunk > 0: every reverse write (= TLS record) is at least that large
 };
@@ -238,7 +240,9 @@ struct Peer
     uint64_t revLeft = P.reverseBytes, tailLeft = P.tailBytes, wOff = 0;
     uint64_t nextReadAt = 0, nextWriteAt = 0, burstLeft = burstSizes[rng.below(7)];
     uint32_t rchunk = chunkSizes[rng.below(7)];
-    int pauseLeft = P.pauseBudget;
+    int pauseLeft = P.drainMode == 2 ? 0x7fffffff : P.drainMode == 3 ? 0 : P.pauseBudget;
+    const uint32_t steadyChunk = uint32_t(rng.range(512, 4096)), steadyPauseUs = uint32_t(rng.range(40, 400));
+    if (P.drainMode == 1) { burstLeft = steadyChunk; rchunk = steadyChunk; }
     bool writeShut = false;
     size_t pendingW = 0;
     for (;;)
@@ -263,7 +267,12 @@ struct Peer
           idleSinceNs = 0; progressed = true;
           burstLeft -= std::min<uint64_t>(burstLeft, uint64_t(n));
           if (P.abortKind && rxBytes.load() >= P.abortAfter) { doAbort(); break; }
-          if (burstLeft == 0)
+          if (burstLeft == 0 && P.drainMode == 1)
+          {
+            burstLeft = steadyChunk; pausesTaken++;
+            if (!drain.load()) nextReadAt = now + steadyPauseUs * 1000ull;
+          }
+          else if (burstLeft == 0)
           {
             burstLeft = burstSizes[rng.below(7)];
             rchunk = chunkSizes[rng.below(7)];
